@@ -351,6 +351,8 @@ class Sym(object):
             r = int(r)
         if isinstance(r, (float, _np.floating)) and float(r) == int(r):
             r = int(r)
+        if isinstance(r, Fraction) and r.denominator == 1:
+            r = int(r)
         if isinstance(r, Sym) and r.op == 'const' and r.a[0].denominator == 1:
             r = int(r.a[0])
         if isinstance(r, (int, _np.integer)):
